@@ -16,7 +16,9 @@ import PdtVerif.Lemmas.SeqScoreCache
 
 Property theorems only (helper lemmas live in `Lemmas/SeqScore*.lean`). Every statement is for
 all sizes, vocabularies, tokens (in or out of vocabulary), `eos` values, log-softmax values and
-language models of the model.
+language models of the model. Every theorem with hypotheses is followed (audit) by a
+`…_nonvacuous` theorem that applies it to a concrete, non-trivial instance on which ALL its
+hypotheses hold together; those are tests, not counted as obligations.
 -/
 namespace PdtVerif.SeqScore
 
@@ -25,6 +27,9 @@ namespace PdtVerif.SeqScore
 /-- `_lens_from_eos` (cumulative-sum construction) is the position of the first `eos`. -/
 theorem C07_lens_from_eos (tok : List Int) (eos : Int) :
     lensFromEos tok eos = tok.idxOf eos := lensFromEos_eq_idxOf tok eos
+
+example : lensFromEos [3, 1, 2, 1] 1 = 1 ∧ lensFromEos [3, 2] 1 = 2 ∧ lensFromEos [] 1 = 0 := by
+  decide
 
 /-- One sequence: the mask / fill / gather / fill / sum pipeline equals the sum of the
 log-softmax values of the chosen tokens up to and including the first `eos`, ignoring
@@ -60,18 +65,33 @@ theorem C07_seq (A T B V : Nat) (eos : Option Int) (lsm : Nat → Rat) (hyp : Na
     funext t v; simp only [lsmCol, hypIdx, h1, h2]
   simp only [Option.map_some, colScore_eq_spec, hypCol, hypIdx, h1, h2, hf]
 
-/-- The result has one cell per position outside the sequence dimension. -/
+/-- `C07_seq` on a `(2, 2, 2)` tensor with the sequence dimension in the middle, cell
+`(a, b) = (1, 1)`: the sequence is `[hyp[5], hyp[7]] = [1, 0]` with `eos = 1`, so only its first
+token counts: `lsm[5 * 2 + 1] = -11`. -/
+theorem C07_seq_nonvacuous :
+    (seqLogProbsFlat 2 2 2 2 (some 1) (fun i : Nat => -(i : Rat))
+      (fun i : Nat => if i = 5 then (1 : Int) else 0))[(1 * 2 + 1 : Nat)]? = some (-11 : Rat) := by
+  rw [C07_seq 2 2 2 2 (some 1) _ _ 1 1 (by omega) (by omega)]
+  decide +kernel
+
+/-- The result has one cell per position outside the sequence dimension. **Definitional** (the
+model is a `map` over `range (A * B)`): kept for documentation, not counted as an obligation; the
+shape of the implementation's result is checked by the harness (`pred_seq`). -/
 theorem C07_seq_length (A T B V : Nat) (eos : Option Int) (lsm : Nat → Rat) (hyp : Nat → Int) :
     (seqLogProbsFlat A T B V eos lsm hyp).length = A * B := by
   simp [seqLogProbsFlat]
 
-/-- The dimension argument: an error exactly outside `[-nd, nd - 1]`, otherwise the sequence
-dimension is `dim` modulo the rank. -/
+/-- The entry point: an error exactly when `dim` is outside `[-nd, nd - 1]` or there is no class
+(`V = 0`) while `hyp` has cells (`gather` on an empty class dimension raises; audit: the model
+used to return the empty sums there); otherwise the sequence dimension is `dim` modulo the
+rank. -/
 theorem C07_seq_dim (shape : List Nat) (V : Nat) (dim : Int) (eos : Option Int) (lsm : Nat → Rat)
     (hyp : Nat → Int) :
     (seqLogProbs shape V dim eos lsm hyp = none ↔
-        (dim < -(shape.length : Int) ∨ dim > (shape.length : Int) - 1)) ∧
+        ((dim < -(shape.length : Int) ∨ dim > (shape.length : Int) - 1) ∨
+          (V = 0 ∧ prod shape ≠ 0))) ∧
     (∀ d : Nat, d < shape.length → (dim = d ∨ dim = (d : Int) - shape.length) →
+      (0 < V ∨ prod shape = 0) →
       seqLogProbs shape V dim eos lsm hyp =
         some (seqLogProbsFlat (prod (shape.take d)) (shape.getD d 1) (prod (shape.drop (d + 1))) V
           eos lsm hyp)) := by
@@ -83,8 +103,11 @@ theorem C07_seq_dim (shape : List Nat) (V : Nat) (dim : Int) (eos : Option Int) 
       simp [this, h]
     · have : (decide (dim < -(shape.length : Int)) || decide (dim > (shape.length : Int) - 1)) = false := by
         simpa using h
-      simp [this, h]
-  · intro d hd hdim
+      by_cases hv : V = 0 ∧ prod shape ≠ 0
+      · simp [this, h, hv]
+      · simp only [this, Bool.false_eq_true, if_false, hv, h, false_or]
+        simp
+  · intro d hd hdim hV
     unfold seqLogProbs normDim
     have hr : (decide (dim < -(shape.length : Int)) || decide (dim > (shape.length : Int) - 1)) = false := by
       rcases hdim with h | h <;> simp <;> omega
@@ -95,10 +118,29 @@ theorem C07_seq_dim (shape : List Nat) (V : Nat) (dim : Int) (eos : Option Int) 
       · subst h
         have : (shape.length : Int) + ((d : Int) - shape.length) = d := by omega
         rw [this, Int.emod_eq_of_lt (by omega) (by omega)]; simp
-    have hm' : (dim % (shape.length : Int)).toNat = d := by simpa using hm
-    simp [hr, hm']
+    have hv : ¬ (V = 0 ∧ prod shape ≠ 0) := by
+      rintro ⟨h1, h2⟩
+      rcases hV with h | h
+      · omega
+      · exact h2 h
+    simp only [hr, Bool.false_eq_true, if_false, hm, hv]
 
 example : seqLogProbs [2, 3] 2 (-1) none (fun _ => 0) (fun _ => 0) ≠ none := by decide
+
+/-- Both parts of `C07_seq_dim` on a rank-2 tensor: `dim = -1` is the last dimension (sizes
+`A = 2`, `T = 3`, `B = 1`), `dim = 2` and `dim = -3` are errors. -/
+theorem C07_seq_dim_nonvacuous (lsm : Nat → Rat) (hyp : Nat → Int) :
+    seqLogProbs [2, 3] 2 (-1) (some 1) lsm hyp = some (seqLogProbsFlat 2 3 1 2 (some 1) lsm hyp) ∧
+    seqLogProbs [2, 3] 2 2 (some 1) lsm hyp = none ∧
+    seqLogProbs [2, 3] 2 (-3) (some 1) lsm hyp = none :=
+  ⟨(C07_seq_dim [2, 3] 2 (-1) (some 1) lsm hyp).2 1 (by decide) (Or.inr (by decide))
+      (Or.inl (by decide)),
+   (C07_seq_dim [2, 3] 2 2 (some 1) lsm hyp).1.2 (Or.inl (Or.inr (by decide))),
+   (C07_seq_dim [2, 3] 2 (-3) (some 1) lsm hyp).1.2 (Or.inl (Or.inl (by decide)))⟩
+
+/-- No class at all: an error as soon as `hyp` has a cell, the empty sums when it has none. -/
+example : seqLogProbs [2, 3] 0 1 none (fun _ => 0) (fun _ => 0) = none ∧
+    seqLogProbs [2, 0] 0 1 none (fun _ => 0) (fun _ => 0) = some [0, 0] := by decide +kernel
 example : seqLogProbs [2, 3] 2 2 none (fun _ => 0) (fun _ => 0) = none := by decide
 
 /-! ## `sequence_log_probs` on a `PackedSequence` -/
@@ -114,7 +156,10 @@ with `i < batch_sizes[t]` (i.e. within that sequence's length) of the padded cel
 `unsorted_indices` — the same sum the padded-tensor path computes.
 `hbs` says that `pack_padded_sequence(hyp, lens)` reproduces `batch_sizes` from the lengths the
 code derives from them (true for every `PackedSequence`: non-increasing positive batch sizes with
-`batch_sizes[0] = N`; checked on every generated case, not derived here). -/
+`batch_sizes[0] = N`; derived in `C07_packed_valid`). This is the layout-level lemma about the
+part of the code after `index_select` (`seqLogProbsPackedCore`, `N` = number of selected
+sequences); the gather by `unsorted_indices` is still totalised (`getD`) here — the statements
+about the entry point, under the index guards, are `C07_packed_valid` / `C07_packed_seq`. -/
 theorem C07_packed (V N T : Nat) (lsm : Nat → Nat → Rat) (bs : List Nat)
     (sidx uidx : Option (List Nat)) (hyp : Nat → Nat → Int) (x : Nat → Nat → Nat → Rat)
     (hguard : (decide (N = 0) || (lensOfBatchSizes N bs).any (· == 0) ||
@@ -122,7 +167,7 @@ theorem C07_packed (V N T : Nat) (lsm : Nat → Nat → Rat) (bs : List Nat)
     (hbs : batchSizesOfLens (lensOfBatchSizes N bs) = bs)
     (hlayout : ∀ t i, t < bs.length → i < bs.getD t 0 →
       lsm (offs bs t + i) = x (sortIdx sidx i) t) :
-    seqLogProbsPacked V N T lsm bs sidx uidx hyp =
+    seqLogProbsPackedCore V N T lsm bs sidx uidx hyp =
       some (
         let sums := (List.range (bs.headD 0)).map (fun i =>
           ((bs.zipIdx).map (fun bt =>
@@ -131,7 +176,7 @@ theorem C07_packed (V N T : Nat) (lsm : Nat → Nat → Rat) (bs : List Nat)
         match uidx with
         | none => sums
         | some u => u.map (fun j => sums.getD j 0)) := by
-  unfold seqLogProbsPacked
+  unfold seqLogProbsPackedCore
   simp only [hguard, hbs, Bool.false_eq_true, if_false]
   rw [filled_eq (fun r v => lsm r v) _ _ (by simp)]
   have hcells : ((List.zip ((packFn (fun i t => hyp (sortIdx sidx i) t) 0 bs).map (oov V))
@@ -170,15 +215,25 @@ example : (decide ((2 : Nat) = 0) || (lensOfBatchSizes 2 [2, 1]).any (· == 0) |
 exceeds `i` (`lens = (arange(N).unsqueeze(1) < batch_sizes).sum(1)`). -/
 def packedLen (bs : List Nat) (i : Nat) : Nat := (bs.filter (fun b => decide (i < b))).length
 
-/-- **C07_packed_valid** — `C07_packed` without the `hbs` and guard hypotheses, for every valid
-`PackedSequence`: batch sizes non-increasing (`hmono`), positive (`hpos`), starting at the number
-of sequences `N` (`hN`), and a `hyp` with at least as many steps as the longest sequence (`hT`).
-The result for the `i`-th sorted sequence is the spec's score (no `eos`) of its first
-`packedLen bs i` tokens against the padded rows — "`i < batch_sizes[t]`" is "`t <` its length". -/
+/-- The index tensors fit the batch of `N` sequences: `sorted_indices` holds one index per
+sequence of `hyp`, each `< N` (otherwise `index_select` raises `IndexError`, or it selects another
+number of sequences), and `unsorted_indices` addresses rows of the `N` results (otherwise
+`logits[unsorted_indices]` raises `IndexError`). The `PackedSequence` constructor does not check
+this. -/
+def IndicesInRange (N : Nat) (sidx uidx : Option (List Nat)) : Prop :=
+  (∀ s, sidx = some s → s.length = N ∧ ∀ i ∈ s, i < N) ∧ (∀ u, uidx = some u → ∀ j ∈ u, j < N)
+
+/-- **C07_packed_valid** — `C07_packed` for the entry point, without the `hbs` and guard
+hypotheses, for every valid `PackedSequence`: batch sizes non-increasing (`hmono`), positive
+(`hpos`), starting at the number of sequences `N` (`hN`), index tensors that fit the batch
+(`hidx`; the model raises otherwise, as the code does), and a `hyp` with at least as many steps as
+the longest sequence (`hT`). The result for the `i`-th sorted sequence is the spec's score (no
+`eos`) of its first `packedLen bs i` tokens against the padded rows — "`i < batch_sizes[t]`" is
+"`t <` its length". (`sums.getD j 0` never falls back on its default: `j < N` by `hidx`.) -/
 theorem C07_packed_valid (V N T : Nat) (lsm : Nat → Nat → Rat) (bs : List Nat)
     (sidx uidx : Option (List Nat)) (hyp : Nat → Nat → Int) (x : Nat → Nat → Nat → Rat)
     (hmono : bs.Pairwise (fun a b => b ≤ a)) (hpos : ∀ b ∈ bs, 0 < b) (hN : bs.head? = some N)
-    (hT : bs.length ≤ T)
+    (hT : bs.length ≤ T) (hidx : IndicesInRange N sidx uidx)
     (hlayout : ∀ t i, t < bs.length → i < bs.getD t 0 →
       lsm (offs bs t + i) = x (sortIdx sidx i) t) :
     seqLogProbsPacked V N T lsm bs sidx uidx hyp =
@@ -189,7 +244,8 @@ theorem C07_packed_valid (V N T : Nat) (lsm : Nat → Nat → Rat) (bs : List Na
         match uidx with
         | none => sums
         | some u => u.map (fun j => sums.getD j 0)) := by
-  rw [C07_packed V N T lsm bs sidx uidx hyp x (packed_guard N T bs hmono hpos hN hT)
+  rw [packed_entry V N T lsm bs sidx uidx hyp hN hidx.1 hidx.2,
+    C07_packed V N T lsm bs sidx uidx hyp x (packed_guard N T bs hmono hpos hN hT)
     (batchSizes_roundtrip N bs hmono hpos hN) hlayout]
   have hhead : bs.headD 0 = N := by
     cases bs with
@@ -209,14 +265,40 @@ theorem C07_packed_valid (V N T : Nat) (lsm : Nat → Nat → Rat) (bs : List Na
       (fun t => paddedCell V (x (sortIdx sidx i) t) (hyp (sortIdx sidx i) t))]
     exact padded_cells_eq_spec V (packedLen bs i) (x (sortIdx sidx i)) (hyp (sortIdx sidx i))
   simp only [hsums]
+  cases uidx <;> rfl
 
-/-- `sorted_indices` / `unsorted_indices` of a `PackedSequence`: both absent, or `u` sends every
-sequence to its position in the sorted batch and `s` sends it back. -/
+/-- `sorted_indices` / `unsorted_indices` of a `PackedSequence`: both absent, or both hold one
+in-range index per sequence, `u` sends every sequence to its position in the sorted batch and `s`
+sends it back. (Audit: `s.length = N` and `∀ i ∈ s, i < N` were missing — with a shorter `s` the
+equation `s.getD (u.getD j 0) 0 = j` could hold for `j = 0` through the default of `getD`, a
+`PackedSequence` on which the code raises.) -/
 def InversePerm (N : Nat) (sidx uidx : Option (List Nat)) : Prop :=
   match sidx, uidx with
   | none, none => True
-  | some s, some u => u.length = N ∧ ∀ j, j < N → u.getD j 0 < N ∧ s.getD (u.getD j 0) 0 = j
+  | some s, some u => s.length = N ∧ u.length = N ∧ (∀ i ∈ s, i < N) ∧
+      ∀ j, j < N → u.getD j 0 < N ∧ s.getD (u.getD j 0) 0 = j
   | _, _ => False
+
+theorem InversePerm.inRange {N : Nat} {sidx uidx : Option (List Nat)}
+    (h : InversePerm N sidx uidx) : IndicesInRange N sidx uidx := by
+  unfold IndicesInRange
+  cases sidx with
+  | none =>
+    cases uidx with
+    | none => exact ⟨fun s hs => (by cases hs), fun u hu => (by cases hu)⟩
+    | some u => simp [InversePerm] at h
+  | some s =>
+    cases uidx with
+    | none => simp [InversePerm] at h
+    | some u =>
+      obtain ⟨hs, hu, hsr, hinv⟩ := h
+      refine ⟨fun s' hs' => ?_, fun u' hu' => ?_⟩
+      · cases hs'; exact ⟨hs, hsr⟩
+      · cases hu'
+        intro j hj
+        obtain ⟨k, hk, rfl⟩ := List.getElem_of_mem hj
+        have := (hinv k (by omega)).1
+        simpa [List.getD_eq_getElem?_getD, List.getElem?_eq_getElem hk] using this
 
 /-- Position of sequence `j` (caller's order) in the sorted batch. -/
 def sortedPos (uidx : Option (List Nat)) (j : Nat) : Nat :=
@@ -239,7 +321,7 @@ theorem C07_packed_seq (V N T : Nat) (lsm : Nat → Nat → Rat) (bs : List Nat)
       some ((List.range N).map (fun j =>
         Spec.seqScore V none (x j)
           ((List.range (packedLen bs (sortedPos uidx j))).map (hyp j)))) := by
-  rw [C07_packed_valid V N T lsm bs sidx uidx hyp x hmono hpos hN hT hlayout]
+  rw [C07_packed_valid V N T lsm bs sidx uidx hyp x hmono hpos hN hT hperm.inRange hlayout]
   cases sidx with
   | none =>
     cases uidx with
@@ -249,7 +331,7 @@ theorem C07_packed_seq (V N T : Nat) (lsm : Nat → Nat → Rat) (bs : List Nat)
     cases uidx with
     | none => simp [InversePerm] at hperm
     | some u =>
-      obtain ⟨hlen, hinv⟩ := hperm
+      obtain ⟨_, hlen, _, hinv⟩ := hperm
       simp only [sortedPos]
       congr 1
       rw [range_form u N 0 hlen, List.map_map]
@@ -261,16 +343,79 @@ theorem C07_packed_seq (V N T : Nat) (lsm : Nat → Nat → Rat) (bs : List Nat)
       rw [List.getD_eq_getElem?_getD, List.getElem?_map, List.getElem?_range h1]
       simp only [Option.map_some, Option.getD_some, sortIdx, h2]
 
-/-- The hypotheses of `C07_packed_seq` hold for lengths `[1, 2]` packed unsorted
-(`batch_sizes = [2, 1]`, `sorted_indices = unsorted_indices = [1, 0]`). -/
-example : [2, 1].Pairwise (fun a b => b ≤ a) ∧ (∀ b ∈ [2, 1], 0 < b) ∧
-    [2, 1].head? = some 2 ∧ InversePerm 2 (some [1, 0]) (some [1, 0]) ∧
-    packedLen [2, 1] (sortedPos (some [1, 0]) 0) = 1 ∧
-    packedLen [2, 1] (sortedPos (some [1, 0]) 1) = 2 := by
-  refine ⟨by decide, by decide, rfl, ⟨rfl, ?_⟩, by decide, by decide⟩
+/-! ### a concrete `PackedSequence` on which ALL hypotheses hold (non-vacuity)
+
+Two sequences of lengths `[1, 2]` (caller's order), packed unsorted: `batch_sizes = [2, 1]`,
+`sorted_indices = unsorted_indices = [1, 0]`; `hyp[0] = [1, 5]` (the `5` is beyond the packed
+length), `hyp[1] = [0, 1]`; padded rows `x[j][t][v] = -(1 + j + 2t + 4v)`; the packed rows hold
+`x[1][0], x[0][0], x[1][1]`. Expected: `[x[0][0][1], x[1][0][0] + x[1][1][1]] = [-5, -10]`. -/
+
+def exX (j t v : Nat) : Rat := -((1 + j + 2 * t + 4 * v : Nat) : Rat)
+def exLsm (r v : Nat) : Rat :=
+  match r with
+  | 0 => exX 1 0 v
+  | 1 => exX 0 0 v
+  | _ => exX 1 1 v
+def exHyp (n t : Nat) : Int :=
+  if n = 0 then (if t = 0 then 1 else 5) else (if t = 0 then 0 else 1)
+
+theorem exLayout : ∀ t i, t < [2, 1].length → i < [2, 1].getD t 0 →
+    exLsm (offs [2, 1] t + i) = exX (sortIdx (some [1, 0]) i) t := by
+  intro t i ht hi
+  match t, i, ht, hi with
+  | 0, 0, _, _ => rfl
+  | 0, 1, _, _ => rfl
+  | 1, 0, _, _ => rfl
+  | 0, i + 2, _, hi => simp at hi; omega
+  | 1, i + 1, _, hi => simp at hi
+  | t + 2, _, ht, _ => simp at ht; omega
+
+theorem exPerm : InversePerm 2 (some [1, 0]) (some [1, 0]) := by
+  refine ⟨rfl, rfl, by decide, ?_⟩
   intro j hj
   have : j = 0 ∨ j = 1 := by omega
   rcases this with rfl | rfl <;> decide
+
+/-- All hypotheses of `C07_packed` hold together on the instance, and the conclusion is the
+expected pair of sums. -/
+theorem C07_packed_nonvacuous :
+    seqLogProbsPackedCore 2 2 2 exLsm [2, 1] (some [1, 0]) (some [1, 0]) exHyp
+      = some [-5, -10] := by
+  rw [C07_packed 2 2 2 exLsm [2, 1] (some [1, 0]) (some [1, 0]) exHyp exX (by decide) (by decide)
+    exLayout]
+  decide +kernel
+
+/-- All hypotheses of `C07_packed_valid` hold together on the instance. -/
+theorem C07_packed_valid_nonvacuous :
+    seqLogProbsPacked 2 2 2 exLsm [2, 1] (some [1, 0]) (some [1, 0]) exHyp = some [-5, -10] := by
+  rw [C07_packed_valid 2 2 2 exLsm [2, 1] (some [1, 0]) (some [1, 0]) exHyp exX (by decide)
+    (by decide) rfl (by decide) exPerm.inRange exLayout]
+  decide +kernel
+
+/-- All hypotheses of `C07_packed_seq` hold together on the instance (lengths `[1, 2]`, a token
+beyond the packed length that is not counted, a re-ordering that is not the identity). -/
+theorem C07_packed_seq_nonvacuous :
+    seqLogProbsPacked 2 2 2 exLsm [2, 1] (some [1, 0]) (some [1, 0]) exHyp = some [-5, -10] ∧
+    packedLen [2, 1] (sortedPos (some [1, 0]) 0) = 1 ∧
+    packedLen [2, 1] (sortedPos (some [1, 0]) 1) = 2 := by
+  refine ⟨?_, by decide, by decide⟩
+  rw [C07_packed_seq 2 2 2 exLsm [2, 1] (some [1, 0]) (some [1, 0]) exHyp exX (by decide)
+    (by decide) rfl (by decide) exPerm exLayout]
+  decide +kernel
+
+/-- The model itself computes the same on the instance (no theorem involved). -/
+example : seqLogProbsPacked 2 2 2 exLsm [2, 1] (some [1, 0]) (some [1, 0]) exHyp
+    = some [-5, -10] := by decide +kernel
+
+/-- Malformed index tensors are rejected by the model, as `index_select` / `logits[idx]` /
+`pad_packed_sequence` reject them (the situations `hidx` excludes): a sorted index outside `hyp`,
+fewer selected sequences than the packed batch, an unsorted index outside the result; more
+selected sequences than the packed batch give a zero length (`pack_padded_sequence` raises). -/
+example : seqLogProbsPacked 2 2 2 exLsm [2, 1] (some [2, 0]) (some [1, 0]) exHyp = none := by decide
+example : seqLogProbsPacked 2 2 2 exLsm [2, 1] (some [1]) (some [1, 0]) exHyp = none := by decide
+example : seqLogProbsPacked 2 2 2 exLsm [2, 1] (some [1, 0]) (some [2, 0]) exHyp = none := by decide
+example : seqLogProbsPacked 2 3 2 exLsm [2, 1] none none exHyp = none := by decide
+example : seqLogProbsPacked 2 1 2 exLsm [2, 1] none none exHyp = none := by decide
 
 /-! ## greedy CTC decoding -/
 
@@ -292,7 +437,44 @@ theorem C07_greedy_filler (row row' : List Rat) (hne : row ≠ []) (hlen : row'.
         frameMax row' = frameMax row) :=
   frameMax_lower row row' hne hlen hle hkeep
 
-example : frameMax [-5, -1, -3] = frameMax [-1/2 - 4, -1, -2] := by decide +kernel
+/-- All hypotheses of `C07_greedy_best` / `C07_greedy_filler` together: the frame `[-1, -3, -2]`
+(strict maximum at index 0) with its two losing classes lowered to `[-1, -7, -5]` (what the
+harness's finite filler does to `-inf` classes). -/
+theorem C07_greedy_best_nonvacuous :
+    ([-3, -1, -2] : List Rat)[(1 : Nat)]? = some (-1 : Rat) ∧
+      ∀ x ∈ ([-3, -1, -2] : List Rat), x ≤ -1 := by
+  have h := C07_greedy_best [-3, -1, -2] (by simp)
+  have e : frameMax [-3, -1, -2] = (-1, 1) := by decide +kernel
+  rw [e] at h
+  exact h
+
+theorem C07_greedy_filler_nonvacuous :
+    frameMax ([-1, -7, -5] : List Rat) = frameMax [-1, -3, -2] := by
+  have e : frameMax ([-1, -3, -2] : List Rat) = (-1, 0) := by decide +kernel
+  have h := C07_greedy_filler [-1, -3, -2] [-1, -7, -5] (by simp) rfl
+    (by
+      intro i x x' h1 h2
+      match i, h1, h2 with
+      | 0, h1, h2 => simp at h1 h2; subst h1 h2; decide +kernel
+      | 1, h1, h2 => simp at h1 h2; subst h1 h2; decide +kernel
+      | 2, h1, h2 => simp at h1 h2; subst h1 h2; decide +kernel
+      | n + 3, h1, _ => simp at h1)
+    (by decide +kernel)
+  apply h.2
+  rw [e]
+  intro i x h1 hne
+  match i, h1, hne with
+  | 0, _, hne => exact absurd rfl hne
+  | 1, h1, _ => simp at h1; subst h1; decide +kernel
+  | 2, h1, _ => simp at h1; subst h1; decide +kernel
+  | n + 3, h1, _ => simp at h1
+
+/-- Frames without classes (`V = 0`, where `frameMax []` is a totalisation) are unreachable: as in
+the code (`blank_idx < -V or blank_idx > V - 1`), every blank index is rejected when `V = 0`. -/
+theorem normBlank_zero (b : Int) : normBlank 0 b = none := by
+  simp only [normBlank, ite_eq_left_iff, Bool.not_eq_true, reduceCtorEq, imp_false,
+    Bool.not_eq_false, Bool.or_eq_true, decide_eq_true_eq]
+  omega
 
 /-- Valid length of batch element `n` with `T` frames. -/
 def lenOf (lens : Option (List Nat)) (n T : Nat) : Nat :=
@@ -371,6 +553,28 @@ theorem C07_greedy (frames : List (List (List Rat))) (lens : Option (List Nat)) 
       rw [hlen]
       simp only [mx, List.length_map]
       exact congrArg some this
+
+/-- Two batch elements of five frames, valid lengths `[4, 1]`, blank `0`. Element 0: frame-wise
+best labels `[1, 1, 0, 2 | 2]` → within the length `[1, 1, 0, 2]` → repeats removed `[1, 0, 2]` →
+blanks removed `[1, 2]`; score `2 + 3 + 5 + 7`. -/
+def exFrames : List (List (List Rat)) :=
+  [[[1, 2, 0], [0, 3, 1], [5, 0, 0], [0, 0, 7], [0, 0, 9]],
+   [[0, 1, 0], [0, 2, 0], [1, 0, 0], [1, 0, 0], [1, 0, 0]]]
+
+/-- The hypothesis of `C07_greedy` holds (one length per batch element) and the theorem yields the
+concrete labels, count and score of element 0 — a repeat and a blank are removed, one frame lies
+beyond the length, and the flat `masked_select` buffer also holds element 1's label. -/
+theorem C07_greedy_nonvacuous :
+    (ctcGreedy exFrames (some [4, 1]) 0 false).outLens[0]? = some 2 ∧
+    ((ctcGreedy exFrames (some [4, 1]) 0 false).paths[0]?).map (List.take 2) = some [1, 2] ∧
+    (ctcGreedy exFrames (some [4, 1]) 0 false).score[0]? = some 17 := by
+  have h := C07_greedy exFrames (some [4, 1]) 0 false (by intro ls h; cases h; rfl) 0 (by decide)
+  have e1 : Spec.greedyLabels 0 (lenOf (some [4, 1]) 0 exFrames[0].length)
+      (exFrames[0].map (fun row => (frameMax row).2)) = [1, 2] := by decide +kernel
+  have e2 : Spec.greedyScore false (lenOf (some [4, 1]) 0 exFrames[0].length)
+      (exFrames[0].map (fun row => (frameMax row).1)) = 17 := by decide +kernel
+  simp only [e1, e2] at h
+  exact h
 
 example : (ctcGreedy [[[1, 2, 0], [0, 3, 1], [5, 0, 0], [0, 0, 7], [0, 0, 9]]] (some [4]) 0 false).paths
     = [[1, 2, 0, 2, 2]] := by decide
@@ -461,17 +665,58 @@ theorem C07_walk (lm : LM) (V : Nat) (eos : Option Nat) (N maxIters : Nat)
     simp [List.getElem?_map, List.getElem?_range hn, path, col, hy]
   · exact distLogProb_eq_chained lm V eos n col hcolv
 
-/-- The hypotheses of `C07_walk` are satisfiable on a non-trivial input: two paths, one ending
-at its first `eos` (then forced onto `eos`), one running to the step limit. -/
-example : Rows 2 3 [[1, 0], [2, 0], [1, 0]] ∧ Forced (some 0) 2 [[1, 0], [2, 0], [1, 0]] := by
-  refine ⟨⟨by decide, by decide⟩, ?_⟩
+/-! ### a concrete walk on which ALL hypotheses hold (non-vacuity)
+
+Vocabulary `{0, 1, 2}`, `eos = 0`, two paths, step limit 3, language model
+`lm n hist v = -(1 + n + |hist| + v)`. Path 0 draws `1, 2, 1` (runs to the step limit), path 1
+draws `eos` at once and is then forced onto `eos`. -/
+
+def exDraws : List (List Nat) := [[1, 0], [2, 0], [1, 0]]
+def exLm : LM := fun n hist v => -((1 + n + hist.length + v : Nat) : Rat)
+
+theorem exRows : Rows 2 3 (exDraws.take 3) := ⟨by decide, by decide⟩
+
+theorem exForced : Forced (some 0) 2 (exDraws.take 3) := by
   intro e he n hn i j hij hj hi
   cases he
   have hn' : n = 0 ∨ n = 1 := by omega
-  have hj' : j = 1 ∨ j = 2 := by simp at hj; omega
+  have hj' : j = 1 ∨ j = 2 := by simp [exDraws] at hj; omega
   rcases hn' with rfl | rfl <;> rcases hj' with rfl | rfl <;>
     (have hi' : i = 0 ∨ i = 1 := by omega) <;> rcases hi' with rfl | rfl <;>
-    simp_all [column]
+    simp_all [column, exDraws]
+
+theorem exEos : ∀ e, some 0 = some e → e < 3 := by
+  intro e he; cases he; decide
+
+/-- `C07_walk_state` applied to the instance: the walk consumed all three rows (`t = 3`): path 0
+never ended. -/
+theorem C07_walk_state_nonvacuous :
+    ∃ t, t ≤ 3 ∧ (walk exLm 3 (some 0) 2 3 exDraws).y = exDraws.take t ∧
+      (t = 3 ∨ AllDone (some 0) 2 (exDraws.take t)) := by
+  obtain ⟨t, ht, hinv, hend⟩ := C07_walk_state exLm 3 (some 0) 2 3 exDraws exEos exRows exForced
+  exact ⟨t, ht, hinv.y, hend⟩
+
+/-- `C07_walk` applied to both paths of the instance: path 1 is `[eos]` (length 1, although three
+rows were consumed), path 0 the three draws; reported score = chained score = `log_prob`:
+`-2` and `-2 - 4 - 4 = -10`. -/
+theorem C07_walk_nonvacuous :
+    (walk exLm 3 (some 0) 2 3 exDraws).lens = [3, 1] ∧
+    (walk exLm 3 (some 0) 2 3 exDraws).lp[1]? = some (some (-2 : Rat)) ∧
+    distLogProb exLm 3 (some 0) 1 [0, 0, 0] = -2 ∧
+    (walk exLm 3 (some 0) 2 3 exDraws).lp[0]? = some (some (-10 : Rat)) ∧
+    distLogProb exLm 3 (some 0) 0 [1, 2, 1] = -10 := by
+  have h1 := C07_walk exLm 3 (some 0) 2 3 exDraws exEos exRows exForced 1 (by decide)
+  have h0 := C07_walk exLm 3 (some 0) 2 3 exDraws exEos exRows exForced 0 (by decide)
+  have c1 : column (walk exLm 3 (some 0) 2 3 exDraws).y 1 = [0, 0, 0] := by decide +kernel
+  have c0 : column (walk exLm 3 (some 0) 2 3 exDraws).y 0 = [1, 2, 1] := by decide +kernel
+  simp only [c1, c0] at h1 h0
+  have p1 : Spec.chained (exLm 1) [] (Spec.pathOf (some 0) [0, 0, 0]) = -2 := by decide +kernel
+  have p0 : Spec.chained (exLm 0) [] (Spec.pathOf (some 0) [1, 2, 1]) = -10 := by decide +kernel
+  obtain ⟨_, _, _, a4, a5⟩ := h1
+  obtain ⟨_, _, _, b4, b5⟩ := h0
+  rw [p1] at a4 a5
+  rw [p0] at b4 b5
+  exact ⟨by decide +kernel, a4, a5, b4, b5⟩
 
 example : (walk (fun _ _ _ => -1) 3 (some 0) 2 3 [[1, 0], [2, 0], [1, 0]]).lens = [3, 1] := by
   decide +kernel
@@ -487,8 +732,25 @@ theorem C07_support_sums_to_one (V : Nat) (eos : Option Nat) (p : List Nat → N
     ((Spec.support V eos T).map (Spec.seqProb eos p [])).sum = 1 :=
   support_mass V eos p hnorm T []
 
-example : ((List.range 2).map ((fun (_ : List Nat) v => if v = 0 then (1 / 4 : Rat) else 3 / 4) [])).sum = 1 := by
-  decide +kernel
+/-- A history-dependent language model with normalised conditional probabilities over `{0, 1}`:
+after an even number of tokens `(1/4, 3/4)`, after an odd number `(2/3, 1/3)`. -/
+def exP (hist : List Nat) (v : Nat) : Rat :=
+  if hist.length % 2 = 0 then (if v = 0 then 1 / 4 else 3 / 4) else (if v = 0 then 2 / 3 else 1 / 3)
+
+theorem exP_norm : ∀ h, ((List.range 2).map (exP h)).sum = 1 := by
+  intro h
+  have e : List.range 2 = [0, 1] := by decide
+  rcases Nat.mod_two_eq_zero_or_one h.length with hm | hm
+  · simp only [e, exP, hm, List.map_cons, List.map_nil]; decide +kernel
+  · simp only [e, exP, hm, List.map_cons, List.map_nil]; decide +kernel
+
+/-- `hnorm` holds for `exP`, and the three rows of the support of `eos = 0`, `T = 2` carry
+`1/4 + 3/4 * 2/3 + 3/4 * 1/3 = 1`. -/
+theorem C07_support_sums_to_one_nonvacuous :
+    ((Spec.support 2 (some 0) 2).map (Spec.seqProb (some 0) exP [])).sum = 1 ∧
+    (Spec.support 2 (some 0) 2).map (Spec.seqProb (some 0) exP []) = [1 / 4, 1 / 2, 1 / 4] :=
+  ⟨C07_support_sums_to_one 2 (some 0) exP exP_norm 2, by decide +kernel⟩
+
 example : Spec.support 2 (some 0) 2 = [[0, 0], [1, 0], [1, 1]] := by decide
 
 /-- **C07_fill_after_eos**: `_string.py::fill_after_eos` (`(tok == eos).cumsum.clamp_max(1).cumsum > 1`)
@@ -507,8 +769,12 @@ example : fillAfterEos [2, 0, 1, 0, 2] 0 7 = [2, 0, 7, 7, 7] := by decide
 
 /-- **C07_enumerate_support**: `enumerate_support()` (`enumerate_vocab_sequences` →
 `fill_after_eos` → `torch.unique(dim=0)`) lists exactly the rows of `Spec.support`, each once;
-with `eos` set it is the same list in the same (lexicographic) order. -/
-theorem C07_enumerate_support (V T : Nat) (eos : Option Nat) :
+with `eos` set it is the same list in the same (lexicographic) order.
+`_hT` marks the domain on which the model is faithful (the property quantifies over step limits
+`≥ 1`): with `max_iters = 0` the implementation's `enumerate_support()` raises (`torch.unique` on a
+zero-sized dimension when `eos` is set, a `view` error with a batch shape) while the model returns
+the single empty row; the proof does not need the hypothesis. -/
+theorem C07_enumerate_support (V T : Nat) (eos : Option Nat) (_hT : 0 < T) :
     (∀ r, r ∈ enumerateSupport V T eos ↔ r ∈ Spec.support V eos T) ∧
     (enumerateSupport V T eos).Nodup ∧
     (enumerateSupport V T eos).Perm (Spec.support V eos T) ∧
@@ -524,21 +790,29 @@ example : enumerateSupport 2 2 none = [[0, 0], [1, 0], [0, 1], [1, 1]] := by dec
 
 /-- **C07_enumerated_support_sums_to_one**: the probabilities of the rows the implementation
 enumerates (model of `enumerate_support()`) sum to one, for any language model with normalised
-conditional probabilities (over `Rat`; `exp`/`log` not modelled). -/
+conditional probabilities (over `Rat`; `exp`/`log` not modelled); `_hT`: see
+`C07_enumerate_support`. -/
 theorem C07_enumerated_support_sums_to_one (V : Nat) (eos : Option Nat) (p : List Nat → Nat → Rat)
-    (hnorm : ∀ h, ((List.range V).map (p h)).sum = 1) (T : Nat) :
+    (hnorm : ∀ h, ((List.range V).map (p h)).sum = 1) (T : Nat) (_hT : 0 < T) :
     ((enumerateSupport V T eos).map (Spec.seqProb eos p [])).sum = 1 := by
   rw [rat_sum_perm ((enumerateSupport_perm V T eos).map _)]
   exact support_mass V eos p hnorm T []
 
+theorem C07_enumerated_support_sums_to_one_nonvacuous :
+    ((enumerateSupport 2 2 (some 0)).map (Spec.seqProb (some 0) exP [])).sum = 1 ∧
+    ((enumerateSupport 2 3 none).map (Spec.seqProb none exP [])).sum = 1 :=
+  ⟨C07_enumerated_support_sums_to_one 2 (some 0) exP exP_norm 2 (by decide),
+   C07_enumerated_support_sums_to_one 2 none exP exP_norm 3 (by decide)⟩
+
 /-- **C07_sample_in_support** (no batch shape): every row `sample()` returns — a column of the
 single walk's `y` — is, once padded with `eos` to the step limit, a row of `enumerate_support()`.
 Same draw hypotheses as `C07_walk`; `henough`: without `eos` the replay supplies `max_iters` draw
-rows. -/
+rows; `_hT`: see `C07_enumerate_support`. (`eos.getD 0`: without `eos` every row has `T` tokens,
+`walk_columns`, so nothing is padded and the default is never used.) -/
 theorem C07_sample_in_support (lm : LM) (V : Nat) (eos : Option Nat) (M T : Nat)
     (draws : List (List Nat)) (heos : ∀ e, eos = some e → e < V)
     (hrows : Rows M V (draws.take T)) (hf : Forced eos M (draws.take T))
-    (henough : eos = none → T ≤ draws.length)
+    (henough : eos = none → T ≤ draws.length) (_hT : 0 < T)
     (r : List Nat) (hr : r ∈ sampleFlat lm V eos M T draws) :
     r.length ≤ T ∧ padTo T (eos.getD 0) r ∈ enumerateSupport V T eos := by
   simp only [sampleFlat, List.mem_map, List.mem_range] at hr
@@ -552,7 +826,7 @@ stacked and `eos`-padded sample tensor is, once padded with `eos` to the step li
 theorem C07_sample_batched_in_support (lm : LM) (V : Nat) (eos : Option Nat) (N T : Nat)
     (draws : List (List (List Nat))) (heos : ∀ e, eos = some e → e < V)
     (h : ∀ d ∈ draws, Rows N V (d.take T) ∧ Forced eos N (d.take T) ∧
-      (eos = none → T ≤ d.length))
+      (eos = none → T ≤ d.length)) (_hT : 0 < T)
     (r : List Nat) (hr : r ∈ sampleBatched lm V eos N T draws) :
     r.length ≤ T ∧ padTo T (eos.getD 0) r ∈ enumerateSupport V T eos := by
   simp only [sampleBatched, List.mem_flatMap, List.mem_map, List.mem_range] at hr
@@ -581,9 +855,47 @@ theorem C07_sample_batched_in_support (lm : LM) (V : Nat) (eos : Option Nat) (N 
 example : sampleBatched (fun _ _ _ => -1) 3 (some 2) 1 3 [[[2]], [[0], [1], [2]]]
     = [[2, 2, 2], [0, 1, 2]] := by decide +kernel
 
-/-- `_validate_sample` of the repaired code accepts exactly what `TokenSequenceConstraint.check`
-accepts: the event dimension is not compared with `max_iters` separately. -/
-theorem C07_validate (V : Nat) (eos : Option Int) (maxIters : Option Nat) (value : List Int) :
+/-- `C07_sample_in_support` on the walk instance of `C07_walk_nonvacuous` (all hypotheses
+together): both sampled rows, `[1, 2, 1]` and the forced `[0, 0, 0]`, are rows of
+`enumerate_support()`. -/
+theorem C07_sample_in_support_nonvacuous :
+    sampleFlat exLm 3 (some 0) 2 3 exDraws = [[1, 2, 1], [0, 0, 0]] ∧
+    ∀ r ∈ sampleFlat exLm 3 (some 0) 2 3 exDraws,
+      r.length ≤ 3 ∧ padTo 3 0 r ∈ enumerateSupport 3 3 (some 0) :=
+  ⟨by decide +kernel, fun r hr =>
+    C07_sample_in_support exLm 3 (some 0) 2 3 exDraws exEos exRows exForced (by intro h; cases h)
+      (by decide) r hr⟩
+
+/-- Draw matrices of two walks with batch size 2: in the first both paths end at step 0 (the walk
+stops after one row; its rows are padded with `eos` to the length of the longer walk), the second
+is the walk of `C07_walk_nonvacuous`. -/
+def exDrawsB : List (List (List Nat)) := [[[0, 0]], exDraws]
+
+theorem exBatchedHyps : ∀ d ∈ exDrawsB, Rows 2 3 (d.take 3) ∧ Forced (some 0) 2 (d.take 3) ∧
+    ((some 0 : Option Nat) = none → 3 ≤ d.length) := by
+  intro d hd
+  simp only [exDrawsB, List.mem_cons, List.not_mem_nil, or_false] at hd
+  rcases hd with rfl | rfl
+  · refine ⟨⟨by decide, by decide⟩, ?_, by intro h; cases h⟩
+    intro e he n hn i j hij hj hi
+    simp at hj
+    omega
+  · exact ⟨exRows, exForced, by intro h; cases h⟩
+
+/-- `C07_sample_batched_in_support` with all hypotheses together; the sample tensor has the rows
+`[0,0,0], [0,0,0]` (padded) and `[1,2,1], [0,0,0]`. -/
+theorem C07_sample_batched_in_support_nonvacuous :
+    sampleBatched exLm 3 (some 0) 2 3 exDrawsB = [[0, 0, 0], [0, 0, 0], [1, 2, 1], [0, 0, 0]] ∧
+    ∀ r ∈ sampleBatched exLm 3 (some 0) 2 3 exDrawsB,
+      r.length ≤ 3 ∧ padTo 3 0 r ∈ enumerateSupport 3 3 (some 0) :=
+  ⟨by decide +kernel, fun r hr =>
+    C07_sample_batched_in_support exLm 3 (some 0) 2 3 exDrawsB exEos exBatchedHyps (by decide) r hr⟩
+
+/-- `_validate_sample` of the repaired code is `TokenSequenceConstraint.check` on the event
+dimension (**definitional**: with `pinned = false` the shape test of the model is `true`; helper,
+not counted). -/
+theorem validateSample_repaired (V : Nat) (eos : Option Int) (maxIters : Option Nat)
+    (value : List Int) :
     validateSample false V eos maxIters value = supportCheck V eos maxIters value := by
   simp [validateSample, eventDimOk]
 
@@ -609,6 +921,27 @@ example : supportCheck 2 (some 0) (some 3) [1, 0, 7] = true := by decide
 example : supportCheck 2 (some 0) (some 3) [1, 7, 0] = false := by decide
 example : supportCheck 2 (some 0) (some 3) [1, 1] = false := by decide
 
+/-- **C07_validate** (what `log_prob` accepts, repaired `_validate_sample`; restated by the audit
+against the declarative conditions — it used to be the definitional `validateSample false =
+supportCheck`): a value passes exactly when it is complete and in the vocabulary up to and
+including its first `eos` — with a step limit: `T` tokens, or at most `T` tokens one of which is
+`eos`; without: it holds `eos`. Its length is not compared with `max_iters` otherwise. -/
+theorem C07_validate (V : Nat) (eos : Option Int) (value : List Int) :
+    (∀ T, validateSample false V eos (some T) value = true ↔
+      Complete eos T value ∧ ∀ x ∈ Spec.cutAtEos eos value, 0 ≤ x ∧ x < (V : Int)) ∧
+    (validateSample false V eos none value = true ↔
+      (∃ e, eos = some e ∧ e ∈ value) ∧ ∀ x ∈ Spec.cutAtEos eos value, 0 ≤ x ∧ x < (V : Int)) := by
+  refine ⟨fun T => ?_, ?_⟩
+  · rw [validateSample_repaired]; exact supportCheck_iff V eos T value
+  · rw [validateSample_repaired]; exact supportCheck_none_iff V eos value
+
+/-- Both sides of `C07_validate` occur: `[1, 0, 7]` passes (`7` is after the first `eos`),
+`[1, 7, 0]` and the incomplete `[1, 1]` do not. -/
+example : validateSample false 2 (some 0) (some 3) [1, 0, 7] = true ∧
+    validateSample false 2 (some 0) (some 3) [1, 7, 0] = false ∧
+    validateSample false 2 (some 0) (some 3) [1, 1] = false ∧
+    validateSample false 2 (some 0) none [1, 1, 0] = true := by decide
+
 /-- The tree as pinned rejects a sample that the support check accepts: `[1, eos]` with
 `max_iters = 3` (every path hit `eos` early, so the sample has 2 < 3 columns). Replayed on the
 implementation by `corpus/C07/validate-intermediate-length.json`. -/
@@ -616,12 +949,23 @@ theorem C07_validate_pinned_counterexample :
     validateSample true 2 (some 0) (some 3) [1, 0] = false ∧
       supportCheck 2 (some 0) (some 3) [1, 0] = true := by decide
 
-/-- What the pinned shape test does establish: samples of full length (or length one) are
-validated by the support check alone. -/
+/-- What the pinned shape test does establish: samples of full length, of length one, or any
+sample when `max_iters = 1` (`broadcast_shapes` accepts a 1 on either side) are validated by the
+support check alone. (The code under test now carries the repair; this documents the finding.) -/
 theorem C07_validate_pinned_partial (V : Nat) (eos : Option Int) (m : Nat) (value : List Int)
-    (h : value.length = m ∨ value.length = 1) :
+    (h : value.length = m ∨ value.length = 1 ∨ m = 1) :
     validateSample true V eos (some m) value = supportCheck V eos (some m) value := by
-  rcases h with h | h <;> simp [validateSample, eventDimOk, h]
+  rcases h with h | h | h <;> simp [validateSample, eventDimOk, h]
+
+/-- … and outside those cases the pinned shape test rejects everything (so the `_partial`
+hypothesis is exactly the domain on which the pinned code is right for accepted values). -/
+theorem validateSample_pinned_rejects (V : Nat) (eos : Option Int) (m : Nat) (value : List Int)
+    (h1 : value.length ≠ m) (h2 : value.length ≠ 1) (h3 : m ≠ 1) :
+    validateSample true V eos (some m) value = false := by
+  simp [validateSample, eventDimOk, h1, h2, h3]
+
+example : validateSample true 2 (some 0) (some 3) [1, 1, 0] = true ∧
+    validateSample true 2 (some 0) (some 3) [0] = true := by decide
 
 /-! ## `TokenSequenceConstraint.check` without a step limit -/
 
@@ -647,25 +991,95 @@ example : supportCheck 2 none none [1, 1] = false := by decide
 
 /-! ## the cache and `validate_args` plumbing of `log_prob` -/
 
-/-- **C07_log_prob_cache** (the cache is transparent): for every configuration
-(`cache_samples`, `validate_args`, any validation / scoring functions) and every sequence of
-`sample` / `log_prob` / `clear_cache` calls on a fresh distribution in which each `sample` caches
-the scores `log_prob` computes for what it drew, every `log_prob` returns exactly what a
-distribution that never caches returns (`refLogProb`); in particular the
-`assert self._log_probs_cache is not None` never fires. -/
+/-- **C07_log_prob_cache** (the cache is transparent; repaired write order, both caches written
+after the scores exist): for every configuration (`cache_samples`, `validate_args`, any
+validation / scoring functions, a scorer that may raise) and every sequence of `sample` /
+`log_prob` / `clear_cache` calls on a fresh distribution in which each `sample` caches the scores
+`log_prob` computes for what it drew, every `log_prob` returns exactly what a distribution that
+never caches returns (`refLogProb`, errors included); in particular the
+`assert self._log_probs_cache is not None` never fires. For the code as pinned see
+`C07_log_prob_cache_pinned_counterexample` / `C07_log_prob_cache_pinned_partial`. -/
 theorem C07_log_prob_cache {Value Scores : Type} [DecidableEq Value] (cfg : DistCfg Value Scores)
     (ops : List (DistOp Value Scores)) (hs : SamplesScored cfg ops) :
-    runDist cfg DistCache.empty ops = (logProbArgs ops).map (refLogProb cfg) :=
-  runDist_eq_ref cfg ops DistCache.empty (cacheOk_empty cfg) hs
+    runDist false cfg DistCache.empty ops = (logProbArgs ops).map (refLogProb cfg) :=
+  runDist_eq_ref false cfg ops DistCache.empty (cacheOk_empty cfg) hs (fun h => by cases h)
 
-/-- **C07_log_prob_validation**: `log_prob` fails only with the `ValueError` of
-`_validate_sample`, and only when validation is on — `validate_args` `True` or `None` (the class
-default `__debug__`) — and the value is rejected; with `validate_args=False` nothing is
-rejected. -/
+/-- Outcome of a `log_prob` call in a comparable form. -/
+def outcome {α} (r : Except DistErr α) : Option DistErr × Option α :=
+  match r with
+  | .ok a => (none, some a)
+  | .error e => (some e, none)
+
+/-- A configuration whose scorer raises on the value `1` (validation off, caching on, the score of
+`v` is `10 + v`). -/
+def exRaisingCfg : DistCfg Nat Nat :=
+  ⟨true, some false, fun _ => true, fun _ => false, fun _ => 0, fun v => 10 + v, fun v => v == 1⟩
+
+/-- **The code as pinned is not exception safe** (found by the audit; reproduced on the
+implementation by `corpus/C07/log-prob-cache-after-exception.json`): `_samples_cache = value` is
+executed before the language model runs. When the model raises on `value`, a second
+`log_prob(value)` finds `value` in the cache and answers with the scores of the value scored
+before (`.ok 10` instead of raising again), or — on an empty cache — trips
+`assert self._log_probs_cache is not None`. A never-caching distribution raises both times, and
+so does the repaired write order. -/
+theorem C07_log_prob_cache_pinned_counterexample :
+    (runDist true exRaisingCfg DistCache.empty [.logProb 0, .logProb 1, .logProb 1]).map outcome
+      = [(none, some 10), (some .scoring, none), (none, some 10)] ∧
+    ((logProbArgs [DistOp.logProb 0, .logProb 1, .logProb (Scores := Nat) 1]).map
+        (refLogProb exRaisingCfg)).map outcome
+      = [(none, some 10), (some .scoring, none), (some .scoring, none)] ∧
+    (runDist true exRaisingCfg DistCache.empty [.logProb 1, .logProb 1]).map outcome
+      = [(some .scoring, none), (some .assertion, none)] ∧
+    (runDist false exRaisingCfg DistCache.empty [.logProb 0, .logProb 1, .logProb 1]).map outcome
+      = [(none, some 10), (some .scoring, none), (some .scoring, none)] := by decide
+
+/-- **C07_log_prob_cache_pinned_partial**: what the pinned write order does establish — the cache
+is transparent when caching is off, or when no `log_prob` of the sequence reaches a raising scorer
+(`Scorable`: rejected by validation, empty, or scored without an exception). -/
+theorem C07_log_prob_cache_pinned_partial {Value Scores : Type} [DecidableEq Value]
+    (cfg : DistCfg Value Scores) (ops : List (DistOp Value Scores)) (hs : SamplesScored cfg ops)
+    (hsc : cfg.cacheSamples = true → ∀ v ∈ logProbArgs ops, Scorable cfg v) :
+    runDist true cfg DistCache.empty ops = (logProbArgs ops).map (refLogProb cfg) :=
+  runDist_eq_ref true cfg ops DistCache.empty (cacheOk_empty cfg) hs (fun _ => hsc)
+
+/-- The hypotheses of `C07_log_prob_cache_pinned_partial` hold on a sequence with a cache hit, a
+miss, a `clear_cache`, a sample and a value rejected by validation (the scorer raises on `1`,
+which validation rejects here, so the call never reaches it). -/
+theorem C07_log_prob_cache_pinned_partial_nonvacuous :
+    let cfg : DistCfg Nat Nat :=
+      ⟨true, none, fun v => v != 1, fun _ => false, fun _ => 0, fun v => 10 + v, fun v => v == 1⟩
+    let ops : List (DistOp Nat Nat) :=
+      [.sample false 2 12, .logProb 2, .logProb 1, .logProb 3, .logProb 3, .clearCache, .logProb 2]
+    (runDist true cfg DistCache.empty ops).map outcome
+      = [(none, some 12), (some .valueError, none), (none, some 13), (none, some 13),
+         (none, some 12)] := by
+  intro cfg ops
+  have hs : SamplesScored cfg ops := by
+    refine ⟨fun _ => ⟨rfl, rfl⟩, trivial⟩
+  have hsc : cfg.cacheSamples = true → ∀ v ∈ logProbArgs ops, Scorable cfg v := by
+    intro _ v hv
+    have : v = 2 ∨ v = 1 ∨ v = 3 := by
+      simp only [ops, logProbArgs, List.mem_cons, List.not_mem_nil, or_false] at hv
+      omega
+    rcases this with rfl | rfl | rfl
+    · exact Or.inr (Or.inr rfl)
+    · exact Or.inl rfl
+    · exact Or.inr (Or.inr rfl)
+  rw [C07_log_prob_cache_pinned_partial cfg ops hs hsc]
+  decide
+
+/-- **C07_log_prob_validation** (what the reference, hence by `C07_log_prob_cache` every
+`log_prob`, fails with): the `ValueError` of `_validate_sample`, exactly when validation is on —
+`validate_args` `True` or `None` (the class default `__debug__`) — and the value is rejected; or
+whatever the scorer raises, exactly when the value passed (or validation is off), is not the empty
+sample, and the scorer raises on it. Never the internal `AssertionError`. (A case analysis of
+`refLogProb`; its content is `validate_args=None` ⇒ validation on, and the order of the tests.) -/
 theorem C07_log_prob_validation {Value Scores : Type} (cfg : DistCfg Value Scores) (v : Value)
     (e : DistErr) :
     refLogProb cfg v = .error e ↔
-      e = .valueError ∧ cfg.validateArgs ≠ some false ∧ cfg.valid v = false :=
+      (e = .valueError ∧ cfg.validateArgs ≠ some false ∧ cfg.valid v = false) ∨
+      (e = .scoring ∧ (cfg.validateArgs = some false ∨ cfg.valid v = true) ∧
+        cfg.isEmpty v = false ∧ cfg.raises v = true) :=
   refLogProb_error_iff cfg v e
 
 /-- **C07_sample_flat_scored**: the hypothesis of `C07_log_prob_cache` holds for `sample()`
@@ -695,31 +1109,109 @@ theorem C07_sample_flat_scored (lm : LM) (V : Nat) (eos : Option Nat) (M T : Nat
     apply List.getElem?_eq_none
     simp [sampleFlat]; omega
 
-/-- **C07_log_prob_cache_flat**: the model's distribution without a batch shape: after a
-`sample()` (any `cache_samples`, `validate_args`), every later `log_prob` / `clear_cache`
-sequence answers as the cache-free reference: rejected values raise, every other value gets
-`scoreRows`, i.e. `distLogProb` of each of its rows. -/
-theorem C07_log_prob_cache_flat (lm : LM) (V : Nat) (eos : Option Nat) (maxIters : Option Nat)
-    (cache : Bool) (va : Option Bool) (M T : Nat) (draws : List (List Nat))
+/-- **C07_log_prob_cache_flat**: the model's distribution without a batch shape, either write
+order, a language model that may raise in `log_prob` on the values `raises` names (not on the
+sample itself): after a `sample()` (any `cache_samples`, `validate_args`), every later `log_prob`
+/ `clear_cache` sequence answers as the cache-free reference: rejected values raise `ValueError`,
+every other value gets `scoreRows`, i.e. `distLogProb` of each of its rows — with the pinned write
+order provided no call reaches a raising scorer while caching is on. -/
+theorem C07_log_prob_cache_flat (pinned : Bool) (lm : LM) (V : Nat) (eos : Option Nat)
+    (maxIters : Option Nat) (cache : Bool) (va : Option Bool)
+    (raises : List (List Nat) → Bool) (M T : Nat) (draws : List (List Nat))
     (heos : ∀ e, eos = some e → e < V)
     (hrows : Rows M V (draws.take T)) (hf : Forced eos M (draws.take T))
+    (hr : raises (sampleFlat lm V eos M T draws) = false)
     (ops : List (DistOp (List (List Nat)) (List (Option Rat))))
-    (hs : SamplesScored (distCfg lm V eos maxIters none cache va) ops) :
-    runDist (distCfg lm V eos maxIters none cache va) DistCache.empty
+    (hs : SamplesScored (distCfg lm V eos maxIters none cache va raises) ops)
+    (hsc : pinned = true → cache = true →
+      ∀ v ∈ logProbArgs ops, Scorable (distCfg lm V eos maxIters none cache va raises) v) :
+    runDist pinned (distCfg lm V eos maxIters none cache va raises) DistCache.empty
         (.sample (M == 0) (sampleFlat lm V eos M T draws) (sampleFlatLp lm V eos M T draws) :: ops) =
-      (logProbArgs ops).map (refLogProb (distCfg lm V eos maxIters none cache va)) := by
-  have := C07_log_prob_cache (distCfg lm V eos maxIters none cache va)
+      (logProbArgs ops).map (refLogProb (distCfg lm V eos maxIters none cache va raises)) := by
+  have := runDist_eq_ref pinned (distCfg lm V eos maxIters none cache va raises)
     (.sample (M == 0) (sampleFlat lm V eos M T draws) (sampleFlatLp lm V eos M T draws) :: ops)
-    ⟨fun _ => C07_sample_flat_scored lm V eos M T draws heos hrows hf, hs⟩
+    DistCache.empty (cacheOk_empty _)
+    ⟨fun _ => ⟨C07_sample_flat_scored lm V eos M T draws heos hrows hf, hr⟩, hs⟩
+    (fun h1 h2 v hv => hsc h1 h2 v (by simpa [logProbArgs] using hv))
   simpa [logProbArgs] using this
 
+/-- `C07_sample_flat_scored` on the walk instance (all hypotheses together): the scores
+`sample()` caches for `[1, 2, 1]` and `[0, 0, 0]` are the scores `log_prob` computes. -/
+theorem C07_sample_flat_scored_nonvacuous :
+    sampleFlatLp exLm 3 (some 0) 2 3 exDraws = [some (-10), some (-2)] ∧
+    scoreRows exLm 3 (some 0) none (sampleFlat exLm 3 (some 0) 2 3 exDraws)
+      = [some (-10), some (-2)] := by
+  have h := C07_sample_flat_scored exLm 3 (some 0) 2 3 exDraws exEos exRows exForced
+  have e : sampleFlatLp exLm 3 (some 0) 2 3 exDraws = [some (-10), some (-2)] := by decide +kernel
+  exact ⟨e, by rw [← h]; exact e⟩
+
+/-- `C07_log_prob_cache_flat` with all hypotheses together, pinned write order, caching on, a
+language model that raises on out-of-vocabulary history tokens: after the sample, a hit, another
+value, a value validation rejects (too short), `clear_cache`, the sample again. No call reaches
+the raising scorer (`hsc`), so every answer is the reference's. -/
+theorem C07_log_prob_cache_flat_nonvacuous :
+    (runDist true (distCfg exLm 3 (some 0) (some 3) none true none (oovInHistory 3))
+      DistCache.empty
+      [.sample false (sampleFlat exLm 3 (some 0) 2 3 exDraws) (sampleFlatLp exLm 3 (some 0) 2 3 exDraws),
+       .logProb [[1, 2, 1], [0, 0, 0]], .logProb [[0, 0, 0], [1, 2, 1]], .logProb [[1, 2]],
+       .clearCache, .logProb [[1, 2, 1], [0, 0, 0]]]).map outcome
+    = [(none, some [some (-10), some (-2)]), (none, some [some (-1), some (-13)]),
+       (some DistErr.valueError, none), (none, some [some (-10), some (-2)])] := by
+  have hops : ∀ v ∈ logProbArgs (Scores := List (Option Rat))
+      [.logProb [[1, 2, 1], [0, 0, 0]], .logProb [[0, 0, 0], [1, 2, 1]], .logProb [[1, 2]],
+       .clearCache, .logProb [[1, 2, 1], [0, 0, 0]]],
+      Scorable (distCfg exLm 3 (some 0) (some 3) none true none (oovInHistory 3)) v := by
+    intro v hv
+    simp only [logProbArgs, List.mem_cons, List.not_mem_nil, or_false] at hv
+    rcases hv with rfl | rfl | rfl | rfl
+    · exact Or.inr (Or.inr (by decide))
+    · exact Or.inr (Or.inr (by decide))
+    · exact Or.inl (by decide)
+    · exact Or.inr (Or.inr (by decide))
+  have h := C07_log_prob_cache_flat true exLm 3 (some 0) (some 3) true none (oovInHistory 3) 2 3
+    exDraws exEos exRows exForced (by decide +kernel) _ (by simp [SamplesScored]) (fun _ _ => hops)
+  have e : ((2 : Nat) == 0) = false := by decide
+  rw [e] at h
+  rw [h]
+  decide +kernel
+
+/-- `C07_log_prob_cache` (repaired write order) with a scorer that raises in the middle of the
+sequence: the answers are the reference's, the second call on the raising value raises again. -/
+theorem C07_log_prob_cache_nonvacuous :
+    (runDist false exRaisingCfg DistCache.empty
+      [.sample false 5 15, .logProb 5, .logProb 1, .logProb 1, .logProb 0, .logProb 0]).map outcome
+    = [(none, some 15), (some .scoring, none), (some .scoring, none), (none, some 10),
+       (none, some 10)] := by
+  have h := C07_log_prob_cache exRaisingCfg
+    [.sample false 5 15, .logProb 5, .logProb 1, .logProb 1, .logProb 0, .logProb 0]
+    (by simp [SamplesScored, exRaisingCfg])
+  rw [h]
+  decide
+
+/-- The model's state machine on the harness's own call sequence (sample, hit, other value of the
+same shape, hit again, other shape = rejected, clear, recompute), pinned write order. -/
 example :
-    (runDist (distCfg (fun _ _ v => -(v : Rat)) 2 (some 0) (some 2) none true none) DistCache.empty
+    (runDist true (distCfg (fun _ _ v => -(v : Rat)) 2 (some 0) (some 2) none true none)
+      DistCache.empty
       [.sample false [[1, 0]] [some (-1)], .logProb [[1, 0]], .logProb [[1, 1]], .logProb [[1, 0]],
-       .logProb [[1]], .clearCache, .logProb [[1, 0]]]).map
-      (fun r => match r with | .ok l => (none, l) | .error e => (some e, []))
-    = [(none, [some (-1)]), (none, [some (-2)]), (none, [some (-1)]),
-       (some DistErr.valueError, []), (none, [some (-1)])] := by
+       .logProb [[1]], .clearCache, .logProb [[1, 0]]]).map outcome
+    = [(none, some [some (-1)]), (none, some [some (-2)]), (none, some [some (-1)]),
+       (some DistErr.valueError, none), (none, some [some (-1)])] := by
+  decide +kernel
+
+/-- The defect on the concrete model distribution: vocabulary `{0, 1}`, `eos = 0`, three steps;
+`[0, 7, 1]` passes `_validate_sample` (the `7` sits after the first `eos`) but a language model
+with an embedding table raises on it (`oovInHistory`). After `log_prob([[1, 1, 0]])` the second
+`log_prob([[0, 7, 1]])` answers with the scores of `[[1, 1, 0]]`. -/
+example :
+    (runDist true (distCfg (fun _ _ v => -(v : Rat)) 2 (some 0) (some 3) none true none
+        (oovInHistory 2)) DistCache.empty
+      [.logProb [[1, 1, 0]], .logProb [[0, 7, 1]], .logProb [[0, 7, 1]]]).map outcome
+    = [(none, some [some (-2)]), (some DistErr.scoring, none), (none, some [some (-2)])] ∧
+    (runDist false (distCfg (fun _ _ v => -(v : Rat)) 2 (some 0) (some 3) none true none
+        (oovInHistory 2)) DistCache.empty
+      [.logProb [[1, 1, 0]], .logProb [[0, 7, 1]], .logProb [[0, 7, 1]]]).map outcome
+    = [(none, some [some (-2)]), (some DistErr.scoring, none), (some DistErr.scoring, none)] := by
   decide +kernel
 
 end PdtVerif.SeqScore
